@@ -118,6 +118,9 @@ func (g *histGen) genStmt(ext bool) *StmtProg {
 		if r.Chance(1, 3) {
 			sp.Ops = append(sp.Ops, Op{K: "written"})
 		}
+		if g.o.abuse && r.Chance(1, 10) {
+			sp.Ops = append(sp.Ops, Op{K: "empty"}) // refused once rows were delivered; must have no effect
+		}
 		if g.o.errs && r.Chance(1, 12) {
 			sp.Ops = append(sp.Ops, Op{K: "return", Err: g.err()})
 			return sp
